@@ -1,8 +1,15 @@
-import RV.C09.Spec
+import RV.C09.LitLemmas
 /-
-  C09 — property statements and theorems (work in progress: table theorems first).
+  C09 — "Literal ↔ Python value mapping is faithful and normalisation is idempotent":
+  property statements (each first as `def Statement_… : Prop` at full strength) and theorems.
+
+  Vocabulary: `RV/C09/Claims.lean` (Supported, Covered, ValueIs, Built, Denotes, ExactBack),
+  XSD lexical spaces and values: `RV/C09/Spec.lean`, model of rdflib: `RV/C09/Model.lean`.
+  No floats occur anywhere (xsd:float/double are tied by correspondence only).
 -/
 namespace RV.C09
+
+/-! ## 0. Regenerated tables (re-proved against the live `rdflib.term` on every run) -/
 
 /-- every modelled datatype is a key of `XSDToPython` and maps to the converter the model applies -/
 def Statement_converter_table : Prop :=
@@ -10,5 +17,169 @@ def Statement_converter_table : Prop :=
 
 theorem converter_table : Statement_converter_table := by
   unfold Statement_converter_table; decide
+
+/-- each integer checker of `_check_well_formed_types` accepts at least the XSD value range of its
+    datatype, and exactly that range except for `integer`/`long` (no checker) and `unsignedLong`
+    (no upper bound in the code) -/
+def Statement_integer_bounds_table : Prop :=
+  ∀ d ∈ Dt.all, d.conv = .int →
+    (d.bounds = none ∨ ∃ b, d.bounds = some b ∧ covers b (Spec.xsdBounds d) = true) ∧
+    (d = .integer ∨ d = .long ∨ d = .unsignedLong ∨ d.bounds = some (Spec.xsdBounds d))
+
+theorem integer_bounds_table : Statement_integer_bounds_table :=
+  fun d _ h => ⟨bounds_table d h, bounds_table_exact d h⟩
+
+/-- the rule lists give int → xsd:integer, bool → xsd:boolean (before int), Decimal → xsd:decimal,
+    str → no datatype, datetime before date, and the model's numeric set is `_NUMERIC_LITERAL_TYPES` -/
+def Statement_rule_tables : Prop :=
+  (Tables.genericRules.map (fun r => (r.1, r.2.1))).take 11 =
+    [("str", "-"), ("float", "double"), ("bool", "boolean"), ("int", "integer"), ("int", "integer"),
+     ("Decimal", "decimal"), ("datetime", "dateTime"), ("date", "date"), ("time", "time"),
+     ("Duration", "duration"), ("timedelta", "dayTimeDuration")] ∧
+  (∀ d ∈ Dt.all, isNumeric (some d) = (d.conv == .int || d == .decimal)) ∧
+  ("bytes", "hexBinary") ∈ Tables.specificRules ∧ ("timedelta", "yearMonthDuration") ∈ Tables.specificRules
+
+theorem rule_tables : Statement_rule_tables := by
+  unfold Statement_rule_tables; decide
+
+/-! ## 1. Python value → literal -/
+
+/-- `Literal(v)` has the documented datatype and a lexical form in that datatype's XSD lexical space -/
+def Statement_py_to_lit_valid : Prop :=
+  ∀ v, Supported v → ∃ l, mkValue v none = some l ∧ l.dt = genericDt v ∧ Spec.validLexOpt l.dt l.lex = true
+
+theorem py_to_lit_valid : Statement_py_to_lit_valid := by
+  intro v hv
+  cases v with
+  | int i => exact ⟨_, mkValue_int i, rfl, validLex_integer_intRepr i⟩
+  | bool b => exact ⟨_, mkValue_bool b, rfl, by simp [Spec.validLexOpt, Spec.validLex, boolVal_boolLex]⟩
+  | dec n c e => exact ⟨_, mkValue_dec n c e, rfl, (pyDecimal_fmtF n c e).2⟩
+  | str s => exact ⟨_, mkValue_str s, rfl, rfl⟩
+  | _ => exact absurd hv (by simp [Supported])
+
+/-- `Literal(v).toPython()` is `v`, and reading the lexical form back (`Literal(str(l), datatype=l.datatype)`)
+    gives a value Python-equal to `v` (for a Decimal: possibly with another exponent) -/
+def Statement_lit_to_py_back : Prop :=
+  ∀ v, Supported v → ∃ l, mkValue v none = some l ∧ l.value = some v ∧
+    ∃ v', castLex l.dt l.lex = some v' ∧ pyEq v' v = true
+
+theorem lit_to_py_back : Statement_lit_to_py_back := by
+  intro v hv
+  cases v with
+  | int i => exact ⟨_, mkValue_int i, rfl, .int i, by simp [castLex, Dt.conv, pyInt_intRepr], by simp [pyEq]⟩
+  | bool b => exact ⟨_, mkValue_bool b, rfl, .bool b, by simp [castLex, Dt.conv, parseBoolean_boolLex], by simp [pyEq]⟩
+  | dec n c e =>
+    exact ⟨_, mkValue_dec n c e, rfl, fmtFBack n c e, by simp [castLex, Dt.conv, (pyDecimal_fmtF n c e).1],
+      pyEq_fmtFBack n c e⟩
+  | str s => exact ⟨_, mkValue_str s, rfl, .str s, rfl, by simp [pyEq]⟩
+  | _ => exact absurd hv (by simp [Supported])
+
+/-! ## 2. lexical form → value -/
+
+/-- a valid lexical form of a recognised datatype gives, without the ill-typed flag, the value XSD
+    assigns to it — with either setting of `normalize` -/
+def Statement_lex_to_value_xsd : Prop :=
+  ∀ (d : Dt) (s : Str) (nz : Bool), Spec.validLex d s = true →
+    ∃ l, mkLex (some d) s nz = some l ∧ l.ill = some false ∧ ValueIs d s l.value
+
+/-- proved for the integer family (bounds, leading zeros, `+`, `-0`), decimal (`.5`, `5.`, signs),
+    boolean, the string family and hexBinary -/
+theorem lex_to_value_xsd_partial : ∀ (d : Dt) (s : Str) (nz : Bool), Covered d = true →
+    Spec.validLex d s = true → ∃ l, mkLex (some d) s nz = some l ∧ l.ill = some false ∧ ValueIs d s l.value :=
+  lex_to_value_xsd_covered
+
+/-- the code falsifies the full statement: `24:00:00` is a valid xsd:time (finding C09-K1) -/
+theorem lex_to_value_xsd_witness : ¬ Statement_lex_to_value_xsd := by
+  intro h
+  obtain ⟨l, hl, hill, _⟩ := h .time "24:00:00".toList false (by decide)
+  have : mkLex (some .time) "24:00:00".toList false =
+      some ⟨"24:00:00".toList, some .time, none, some true⟩ := by decide
+  rw [this] at hl
+  cases hl
+  cases hill
+
+/-! ## 3. normalisation -/
+
+/-- normalisation replaces a valid form only by a valid form of the same XSD value -/
+def Statement_normalize_same_value : Prop :=
+  ∀ (d : Dt) (s : Str), Spec.validLex d s = true →
+    ∃ l, mkLex (some d) s true = some l ∧ Spec.validLex d l.lex = true ∧ Spec.sameValue d s l.lex
+
+theorem normalize_same_value_partial : ∀ (d : Dt) (s : Str), Covered d = true → Spec.validLex d s = true →
+    ∃ l, mkLex (some d) s true = some l ∧ Spec.validLex d l.lex = true ∧ Spec.sameValue d s l.lex :=
+  normalize_same_value_covered
+
+/-- the code falsifies the full statement: `2000-01-01Z` is rewritten to `2000-01-01` (finding C09-K3) -/
+theorem normalize_same_value_witness : ¬ Statement_normalize_same_value := by
+  intro h
+  obtain ⟨l, hl, _, hs⟩ := h .date "2000-01-01Z".toList (by decide)
+  have : mkLex (some .date) "2000-01-01Z".toList true =
+      some ⟨"2000-01-01".toList, some .date, some (.date 2000 1 1), some false⟩ := by decide
+  rw [this] at hl
+  cases hl
+  revert hs
+  show ¬ ((Spec.dateVal "2000-01-01Z".toList).1 = (Spec.dateVal "2000-01-01".toList).1)
+  decide
+
+/-- normalising an already normalised literal changes nothing: after one `normalize()` the literal is
+    a fixpoint (lexical form, datatype, value and flag) — for every literal the constructors produce,
+    every datatype of the model (dates, times, durations and hexBinary included) -/
+def Statement_normalize_idempotent : Prop :=
+  ∀ l n1, Built l → l.normalize = some n1 → n1.normalize = some n1
+
+theorem normalize_idempotent : Statement_normalize_idempotent :=
+  fun _ _ hb h => normalize_fixpoint (wf_built hb) h
+
+/-! ## 4. value-space equality -/
+
+/-- `eq` is Python equality of the mapped values on comparable pairs: two numeric literals that are
+    not ill-typed; two literals of the same non-string datatype; two plain / xsd:string literals -/
+def Statement_eq_agrees : Prop :=
+  ∀ a b x y, Built a → Built b → a.value = some x → b.value = some y →
+    ((isNumeric a.dt = true ∧ isNumeric b.dt = true ∧ a.ill ≠ some true ∧ b.ill ≠ some true) ∨
+      (a.dt = b.dt ∧ isStringDt a.dt = false) ∨ (isStringDt a.dt = true ∧ isStringDt b.dt = true)) →
+    a.eq b = some (pyEq x y)
+
+theorem eq_agrees : Statement_eq_agrees := by
+  intro a b x y ha hb hx hy hcmp
+  rcases hcmp with ⟨h1, h2, h3, h4⟩ | ⟨h1, h2⟩ | ⟨h1, h2⟩
+  · exact eq_numeric hx hy h1 h2 h3 h4
+  · exact eq_same_dt hx hy h1 h2
+  · rw [eq_strings h1 h2]
+    have h3 := string_value_of_built ha h1
+    have h4 := string_value_of_built hb h2
+    rw [hx] at h3; rw [hy] at h4
+    cases h3; cases h4
+    simp [pyEq]
+
+/-- value-space equality holds whenever term equality does -/
+def Statement_term_eq_implies_eq : Prop :=
+  ∀ a b, Built a → Built b → a.termEq b = true → a.eq b = some true
+
+/-- proved for literals whose lexical form denotes their value … -/
+theorem term_eq_implies_eq_partial : ∀ a b, Denotes a → Denotes b → a.termEq b = true → a.eq b = some true :=
+  fun _ _ => eq_of_termEq
+
+/-- … which is every literal built with `normalize=False`, every normalised literal of the integer
+    family, boolean, the string family, hexBinary or without datatype, and `Literal(v)` for int/bool/str -/
+theorem denotes_cases :
+    (∀ dt s l, mkLex dt s false = some l → Denotes l) ∧
+    (∀ dt s l, ExactBack dt = true → mkLex dt s true = some l → Denotes l) ∧
+    (∀ v l, Supported v → (∀ n c e, v ≠ .dec n c e) → mkValue v none = some l → Denotes l) :=
+  ⟨fun _ _ _ => denotes_mkLex_false, fun _ _ _ => denotes_mkLex_true, fun _ _ => denotes_mkValue⟩
+
+/-! ## Non-vacuity: the hypotheses are met by concrete, non-trivial instances -/
+
+example : Spec.validLex .unsignedByte "+0255".toList = true ∧ Covered .unsignedByte = true := by decide
+example : Spec.validLex .decimal "-.50".toList = true ∧ Covered .decimal = true := by decide
+example : ∃ l, mkLex (some .integer) ['-', '0'] true = some l ∧ l.lex = ['0'] ∧ Built l :=
+  ⟨⟨['0'], some .integer, some (.int 0), some false⟩, by decide, rfl, Or.inl ⟨some .integer, ['-', '0'], true, by decide⟩⟩
+example : ∃ l n1, Built l ∧ l.normalize = some n1 ∧ n1.lex ≠ l.lex :=
+  ⟨⟨['0', 'F'], some .hexBinary, some (.bytes [15]), some false⟩, ⟨['0', 'f'], some .hexBinary, some (.bytes [15]), some false⟩,
+    Or.inl ⟨some .hexBinary, ['0', 'F'], false, by decide⟩, by decide, by decide⟩
+example : ∃ a b, Denotes a ∧ Denotes b ∧ a.termEq b = true ∧ a.lex = ['1', '2'] :=
+  ⟨⟨['1', '2'], some .integer, some (.int 12), some false⟩, ⟨['1', '2'], some .integer, some (.int 12), none⟩,
+    denotes_mkLex_true (dt := some .integer) (s := ['+', '0', '1', '2']) rfl (by decide),
+    denotes_mkValue (v := .int 12) trivial (by intro _ _ _ h; cases h) (by decide), by decide, rfl⟩
 
 end RV.C09
